@@ -650,7 +650,7 @@ impl<T: AsRef<[u8]> + AsMut<[u8]>> UdpNhcPacket<T> {
                 // We can compress both the source and destination ports.
                 self.set_ports_field(0b11);
                 let data = self.buffer.as_mut();
-                data[idx] = (((src_port - 0xf0b0) as u8) << 4) & ((dst_port - 0xf0b0) as u8);
+                data[idx] = (((src_port - 0xf0b0) as u8) << 4) | ((dst_port - 0xf0b0) as u8);
             }
             (0xf000..=0xf0ff, _) => {
                 // We can compress the source port, but not the destination port.
